@@ -628,7 +628,7 @@ func (s *s1Sim) drive(op *s1op, done chan struct{}, cancel context.CancelFunc, a
 				forceFinalizers()
 			}})
 		}
-		if allowCancel && !cancelled {
+		if allowCancel && !cancelled && !destroyed { // (once Destroy is under way it has to end the call without the caller's help)
 			evs = append(evs, s1event{"cancel", 1, func() { cancelled = true; c.Fault("cancel"); cancel() }})
 		}
 		if allowFault && !w.transportLost {
